@@ -614,21 +614,87 @@ class KernelS(KernelX):
                 i = blk.index(w)
                 xnames = getattr(w, '_xnames', set()) | {E}
                 for s in reversed(blk[:i]):
-                    if isinstance(s, ast.If) and not s.orelse and s.body and \
-                            isinstance(s.body[-1], (ast.Break, ast.Continue, ast.Return, ast.Raise)):
-                        t = s.test
-                        if isinstance(t, ast.Compare) and len(t.ops) == 1 and isinstance(t.ops[0], (ast.GtE, ast.Gt)) \
-                                and norm(t.left) == X:
-                            r = t.comparators[0]
-                            if isinstance(r, ast.Subscript) and isinstance(r.value, ast.Name) and r.value.id == E \
-                                    and isinstance(r.slice, ast.UnaryOp) and isinstance(r.slice.op, ast.USub) \
-                                    and isinstance(r.slice.operand, ast.Constant) and r.slice.operand.value == 1 \
-                                    and isinstance(t.ops[0], ast.GtE):
-                                return True
+                    # every arm of an if / elif chain that ends in an exit is a candidate guard
+                    arms, c, chain_ok = [], s, isinstance(s, ast.If)
+                    while isinstance(c, ast.If):
+                        arms.append(c)
+                        if len(c.orelse) == 1 and isinstance(c.orelse[0], ast.If):
+                            c = c.orelse[0]
+                        else:
+                            if c.orelse:
+                                chain_ok = False
+                            break
+                    if chain_ok:
+                        for arm in arms:
+                            if not (arm.body and isinstance(arm.body[-1], (ast.Break, ast.Continue, ast.Return, ast.Raise))):
+                                continue
+                            t = arm.test
+                            if isinstance(t, ast.Compare) and len(t.ops) == 1 and isinstance(t.ops[0], ast.GtE) and norm(t.left) == X:
+                                r = t.comparators[0]
+                                if isinstance(r, ast.Subscript) and isinstance(r.value, ast.Name) and r.value.id == E and self._is_last_index(r.slice, E):
+                                    return True
                     # X (or E) reassigned between guard and loop?
                     if stores_in(s) & xnames:
                         return False
                 return False
+        return False
+
+    def _is_last_index(self, sl, E):
+        """-1, or a name / expression that is len(R) - 1 for R = E or the array E was derived from element by element."""
+        if isinstance(sl, ast.UnaryOp) and isinstance(sl.op, ast.USub) and isinstance(sl.operand, ast.Constant) and sl.operand.value == 1:
+            return True
+        defs = {}
+        for n in walk_no_nested(self.fn):
+            if isinstance(n, ast.Assign) and len(n.targets) == 1 and isinstance(n.targets[0], ast.Name):
+                defs.setdefault(n.targets[0].id, []).append(n.value)
+
+        params = self.contract.get('params', {})
+
+        def scalar(e, depth=0):
+            if isinstance(e, ast.Constant):
+                return True
+            if isinstance(e, ast.Attribute):
+                return dotted(e) in ('np.pi', 'math.pi')
+            if isinstance(e, ast.Name):
+                if e.id in params and e.id not in defs:
+                    return params[e.id] not in ('arr', 'optarr')
+                ds = defs.get(e.id)
+                return bool(ds) and depth < 5 and all(scalar(d, depth + 1) for d in ds)
+            if isinstance(e, ast.BinOp):
+                return scalar(e.left, depth) and scalar(e.right, depth)
+            if isinstance(e, ast.UnaryOp):
+                return scalar(e.operand, depth)
+            if isinstance(e, ast.Call) and dotted(e.func) in ('dtype', 'float', 'int', 'len', 'np.float32', 'np.float64', 'np.int64') :
+                return True
+            return False
+
+        def root(name, depth=0):
+            """Array that `name` has the same length as (through element-wise definitions)."""
+            out = {name}
+            d = defs.get(name, [])
+            if len(d) == 1 and depth < 5:
+                v = d[0]
+                while True:
+                    if isinstance(v, ast.Call) and isinstance(v.func, ast.Attribute) and v.func.attr in ('astype', 'copy'):
+                        v = v.func.value
+                    elif isinstance(v, ast.BinOp) and isinstance(v.op, (ast.Pow, ast.Mult, ast.Div, ast.Add, ast.Sub)):
+                        # one array operand, the other a scalar name / literal: element-wise
+                        cands = [x for x in (v.left, v.right) if not isinstance(x, ast.Constant)]
+                        arrs = [x for x in cands if not scalar(x)]
+                        if len(arrs) != 1:
+                            break
+                        v = arrs[0]
+                    else:
+                        break
+                if isinstance(v, ast.Name):
+                    out |= root(v.id, depth + 1)
+            return out
+        e = sl
+        if isinstance(e, ast.Name) and len(defs.get(e.id, [])) == 1:
+            e = defs[e.id][0]
+        if isinstance(e, ast.BinOp) and isinstance(e.op, ast.Sub) and isinstance(e.right, ast.Constant) and e.right.value == 1 \
+                and isinstance(e.left, ast.Call) and dotted(e.left.func) == 'len' and len(e.left.args) == 1 and isinstance(e.left.args[0], ast.Name):
+            return bool(root(E) & root(e.left.args[0].id))
         return False
 
     def _cursor_value(self, b, st):
